@@ -372,6 +372,9 @@ def gen_search(rng, m, vocab, base, simple=False, allow_last=False, allow_filter
             if vals:
                 k = rng.randint(1, min(2, len(vals)))
                 alts = [segs[i]] + rng.sample(vals, k)
+                if rng.random() < 0.06:
+                    alts = alts[:2] + ["*"]      # overlapping alternatives: every finder still yields each result once
+                    feats.add("comma_overlap")
                 rng.shuffle(alts)
                 out[i] = ",".join(alts)
                 feats.add("comma")
